@@ -133,6 +133,14 @@ def shard(arg):
             rec.nt.add(hash((cc, b)))
             rec.sample("bban-alias-adjacent", {"cc": cc, "bban": b, "canonical": want, "congruent_alias_exists": alias})
     rec.exhaustive.append("all 100 check-digit pairs for every generated (country, BBAN)")
+    # BBANs whose letter fields spell dictionary words
+    from .. import dims
+    words = [w for w in dims.token_dictionary() if w.isalpha()] + ["NONE", "NULL", "TRUE", "TEST", "NAN", "INF"]
+    for tok, b in g.token_bbans(cc, rng, words[:40 if tier == "quick" else 120]):
+        check_bban(rec, cc, b, f"token-in-bban:{tok}")
+        rec.evals += 100
+        rec.classes["bban-token"] += 1
+        rec.nt.add(hash((cc, b)))
     # structured BBANs (prefix / zero run / suffix): assembling gives the reference digits and a valid IBAN; the canonical pair
     # and its neighbours are probed instead of all 100 (the sweep above covers the pair dimension)
     from ..lib import IBAN, SchwiftyException
@@ -175,4 +183,4 @@ def run(ctx):
                        "is accepted by IBAN().")
     ctx.assumptions = ["BBAN sampling per country is random; the pair dimension is exhaustive"]
     ctx.pmap(shard, [(cc, ctx.seed, ctx.tier) for cc in o.countries()])
-    ctx.require_classes("bban", "bban-alias-adjacent", "bban-with-congruent-alias", "bban-zero-run")
+    ctx.require_classes("bban", "bban-alias-adjacent", "bban-with-congruent-alias", "bban-zero-run", "bban-token")
